@@ -98,6 +98,7 @@ import (
 	"istio.io/istio/pkg/kube/mcs"
 	"istio.io/istio/pkg/lazy"
 	"istio.io/istio/pkg/log"
+	"istio.io/istio/pkg/simhook"
 	"istio.io/istio/pkg/sleep"
 	"istio.io/istio/pkg/test/util/yml"
 	"istio.io/istio/pkg/util/sets"
@@ -893,6 +894,9 @@ func WaitForCacheSync(name string, stop <-chan struct{}, cacheSyncs ...cache.Inf
 		if attempt%50 == 0 {
 			// Log every 50th attempt (5s) at info, to avoid too much noisy
 			log.WithLabels("name", name, "attempt", attempt, "time", time.Since(t0)).Infof("waiting for sync...")
+		}
+		if simhook.SpinWait() {
+			continue
 		}
 		if !sleep.Until(stop, delay) {
 			return false
